@@ -168,6 +168,32 @@ func (Prop) Gen(seed int64, tier string) *harness.Case {
 
 const nSpawn = 10
 
+// expectedFromSent: per producer, the values the final consumer must see, derived from the recorded item() calls.
+func expectedFromSent(w *Work, probes map[string]interface{}) [][]interface{} {
+	stages := len(w.Bufs)
+	var out [][]interface{}
+	for p := range w.Items {
+		sent, _ := probes[fmt.Sprintf("sent%d", p+1)].([]interface{})
+		var seq []interface{}
+		for _, v := range sent {
+			// conversion into the channel's element type at the first send
+			if w.Elem == "float64" {
+				if n, ok := v.(int64); ok {
+					v = float64(n)
+				}
+			}
+			for s := 1; s < stages; s++ {
+				if w.Elem != "interface" {
+					v = fwdValue(v)
+				}
+			}
+			seq = append(seq, v)
+		}
+		out = append(out, seq)
+	}
+	return out
+}
+
 // itemValue is what producer id sends as its i-th item (before any channel conversion).
 func itemValue(w *Work, id, i int64) interface{} {
 	str := fmt.Sprintf("p%d_%d", id, i)
@@ -588,7 +614,15 @@ func (Prop) Run(t *testing.T, c *harness.Case, verbose bool) *harness.Result {
 			mu.Unlock()
 		})
 		e.Define("sleep", func(ms int64) { simrt.Sleep(time.Duration(ms) * time.Millisecond) })
-		e.Define("item", func(id, i int64) interface{} { return itemValue(&w, id, i) })
+		e.Define("item", func(id, i int64) interface{} {
+			v := itemValue(&w, id, i)
+			mu.Lock()
+			k := fmt.Sprintf("sent%d", id)
+			lst, _ := probes[k].([]interface{})
+			probes[k] = append(lst, v)
+			mu.Unlock()
+			return v
+		})
 		e.Define("fwd", fwdValue)
 		e.Define("args", func(xs ...interface{}) {
 			simrt.Yield("probe")
@@ -688,7 +722,10 @@ func judge(wp *Work, got []interface{}, probes map[string]interface{}, mainVal i
 			}
 			return nil
 		}
-		exp := expected(&w)
+		// What must arrive is what the producers were actually given to send (recorded by item()), pushed
+		// through the stages' conversion and transformation - not what a model of the script's loops
+		// predicts: how many times a loop runs is another property's business.
+		exp := expectedFromSent(&w, probes)
 		if w.Workers > 1 {
 			// fan-out: order across workers is not defined; every item exactly once, exact type
 			want := map[interface{}]int{}
@@ -808,7 +845,15 @@ func RunReal(c *harness.Case) (string, string) {
 	e.Define("emit", func(v interface{}) { mu.Lock(); got = append(got, v); mu.Unlock() })
 	e.Define("probe", func(tag string, v interface{}) { mu.Lock(); probes[tag] = v; mu.Unlock() })
 	e.Define("sleep", func(ms int64) { time.Sleep(time.Duration(ms) * time.Microsecond) })
-	e.Define("item", func(id, i int64) interface{} { return itemValue(&w, id, i) })
+	e.Define("item", func(id, i int64) interface{} {
+		v := itemValue(&w, id, i)
+		mu.Lock()
+		k := fmt.Sprintf("sent%d", id)
+		lst, _ := probes[k].([]interface{})
+		probes[k] = append(lst, v)
+		mu.Unlock()
+		return v
+	})
 	e.Define("fwd", fwdValue)
 	e.Define("args", func(xs ...interface{}) {
 		mu.Lock()
